@@ -3,6 +3,11 @@ import functools
 import itertools
 
 
+def _klong_true(q, backend):
+    """Klong truth, as the conditional tests it: 0, [] and "" are false, everything else is true."""
+    return not ((backend.is_number(q) and q == 0) or is_empty(q))
+
+
 def eval_adverb_converge(f, a, op, backend):
     """
         f:~a                                                  [Converge]
@@ -399,7 +404,7 @@ def eval_adverb_scan_while(klong, f, a, b, backend):
     """
     r = [b]
     # TODO: fix arity
-    while klong.eval(KGCall(a, b, arity=1)):
+    while _klong_true(klong.eval(KGCall(a, b, arity=1)), klong._backend):
         b = f(b)
         r.append(b)
     r.pop()
@@ -440,7 +445,7 @@ def eval_adverb_while(klong, f, a, b):
         Example: {x<1000}{x*2}:~1  -->  1024
 
     """
-    while klong.eval(KGCall(a, b, arity=1)):
+    while _klong_true(klong.eval(KGCall(a, b, arity=1)), klong._backend):
         b = f(b)
     return b
 
